@@ -29,7 +29,23 @@ import (
 	"github.com/practable/relay/verifharness/lib"
 )
 
-func hx(b []byte) string { return `(hx "` + hex.EncodeToString(b) + `")` }
+// hx emits a byte string as hex text for Corr/C18.v's [hx]; long strings are split so that no single
+// Coq string literal becomes a term deep enough to exhaust coqc's stack
+func hx(b []byte) string {
+	const chunk = 400
+	if len(b) <= chunk {
+		return `(hx "` + hex.EncodeToString(b) + `")`
+	}
+	parts := []string{}
+	for i := 0; i < len(b); i += chunk {
+		j := i + chunk
+		if j > len(b) {
+			j = len(b)
+		}
+		parts = append(parts, `hx "`+hex.EncodeToString(b[i:j])+`"`)
+	}
+	return "(" + strings.Join(parts, " ++ ") + ")"
+}
 func hxs(s string) string { return hx([]byte(s)) }
 
 // ---------------------------------------------------------------- running a session in a child
@@ -274,7 +290,7 @@ func oracle(s Session, idx int, res *lib.Result) {
 		if len(what) > 300 {
 			what = what[:300] + "..."
 		}
-		res.Violate(lib.Violation{Clause: clause, Case: idx, Replay: s, Key: clause + ":" + it.Family,
+		res.Violate(lib.Violation{Clause: clause, Case: idx, Replay: s, Key: clause + ":" + keyFamily(it),
 			Detail: fmt.Sprintf("session mode=%s api=%q item %d: %s -> %s", s.Mode, s.API, i, what, detail)})
 	}
 	for i, it := range s.Items {
@@ -336,6 +352,24 @@ func oracle(s Session, idx int, res *lib.Result) {
 		}
 		prev = o
 	}
+}
+
+// keyFamily is the stable part of a violation key: verb/what of the command as the host decodes it (or the
+// generator's family for bytes that do not decode), method and route for HTTP requests.
+func keyFamily(it Item) string {
+	if it.Kind == "http" {
+		p := it.Path
+		for _, pre := range []string{"/api/destinations/", "/api/streams/"} {
+			if strings.HasPrefix(p, pre) {
+				p = pre + "{id}"
+			}
+		}
+		return it.Method + " " + p
+	}
+	if d := decodeCmd(it.Msg); d.OK {
+		return d.Cmd.Verb + "/" + d.Cmd.What
+	}
+	return it.Family
 }
 
 func firstLine(s string) string {
